@@ -465,11 +465,16 @@ func (it *Interp) errorsIs(err, target IfaceV) bool {
 		if _, isOp := err.V.(OpaqueV); isOp {
 			it.abort("errors.Is on opaque error")
 		}
-		if fn := it.L.Prog.LookupMethod(err.T, nil, "Is"); fn != nil && fn.Signature.Params().Len() == 1 {
+		if it.L.Prog.MethodSets.MethodSet(err.T).Lookup(nil, "Is") == nil {
+			// no Is method (LookupMethod would panic)
+		} else if fn := it.L.Prog.LookupMethod(err.T, nil, "Is"); fn != nil && fn.Signature.Params().Len() == 1 {
 			r := it.callFn(fn, []Value{err.V, target}, nil, 0).(*smt.Term)
 			if it.Branch(r) {
 				return true
 			}
+		}
+		if it.L.Prog.MethodSets.MethodSet(err.T).Lookup(nil, "Unwrap") == nil { // LookupMethod panics on a missing method
+			return false
 		}
 		fn := it.L.Prog.LookupMethod(err.T, nil, "Unwrap")
 		if fn == nil {
